@@ -196,10 +196,12 @@ vh::Outcome run_rcu(const vh::Case& c, Prop prop) {
                             size_t hi = reg(me);
                             {
                                 auto h = rl.lock_read();
-                                auto it = h->begin();
+                                // both public routes to the list: operator-> and operator* (implemented separately)
+                                const auto& lst = (op.b & 4) ? *h : *h.operator->();
+                                auto it = lst.begin();
                                 st.handles[hi].reg_step = vrt::now_step();
                                 int walked = 0;
-                                while (it != h->end() && walked <= op.a) {
+                                while (it != lst.end() && walked <= op.a) {
                                     vrt::check_live_addr(&*it, "iterator dereference");
                                     st.paused_on[me] = &*it;
                                     (void)E::id(*it);
@@ -224,9 +226,10 @@ vh::Outcome run_rcu(const vh::Case& c, Prop prop) {
                                 st.handles[hi].alive = false;
                             } else {
                                 auto h = rl.lock_read();
-                                auto it = h->begin(); st.handles[hi].reg_step = vrt::now_step();
-                                if (op.b & 2) { while (h->end() != it) { auto cur = it++; vrt::check_live_addr(&*cur, "iterator dereference"); seen.push_back(E::id(*cur)); if (op.b & 1) vrt::step(); } }   // post-increment, reversed comparison
-                                else for (; it != h->end(); ++it) { vrt::check_live_addr(&*it, "iterator dereference"); seen.push_back(E::id(*it)); if (op.b & 1) vrt::step(); }
+                                const auto& lst = (op.b & 4) ? *h : *h.operator->();
+                                auto it = lst.begin(); st.handles[hi].reg_step = vrt::now_step();
+                                if (op.b & 2) { while (lst.end() != it) { auto cur = it++; vrt::check_live_addr(&*cur, "iterator dereference"); seen.push_back(E::id(*cur)); if (op.b & 1) vrt::step(); } }   // post-increment, reversed comparison
+                                else for (; it != lst.end(); ++it) { vrt::check_live_addr(&*it, "iterator dereference"); seen.push_back(E::id(*it)); if (op.b & 1) vrt::step(); }
                                 long end_step = vrt::now_step();
                                 check_traversal(seen, begin_call, end_step, mut0);
                                 st.handles[hi].alive = false;
@@ -235,7 +238,7 @@ vh::Outcome run_rcu(const vh::Case& c, Prop prop) {
                             size_t hi = reg(me);
                             {
                                 auto h = rl.lock_write();
-                                auto it = h->begin(); st.handles[hi].reg_step = vrt::now_step();
+                                auto it = (op.b & 4) ? (*h).begin() : h->begin(); st.handles[hi].reg_step = vrt::now_step();
                                 for (int s = 0; s < op.a % 5 && it != h->end(); ++s) ++it;
                                 if (it != h->end()) {
                                     vrt::check_live_addr(&*it, "iterator dereference");
@@ -376,7 +379,9 @@ vh::Outcome run_c12r(const vh::Case& c) {
     reset_case_globals();
     vh::Outcome out;
     bool nested_any = false;
+    vrt::ledger().strict_null = true; vrt::ledger().strict_lifecycle = true;
     out.res = vrt::run(c.sched, [&] {
+      {
         lg::rcu_guarded<RList> rl;
         std::list<int> ref;
         int next = 1;
@@ -401,8 +406,17 @@ vh::Outcome run_c12r(const vh::Case& c) {
                 default: { auto it = h->begin(); int k = op.a % 4; auto rit = ref.begin(); while (k-- > 0 && it != h->end()) { ++it; ++rit; } if (it != h->end()) { h->erase(it); ref.erase(rit); } break; }
             }
             std::vector<int> got; for (auto it = h->begin(); it != h->end(); ++it) got.push_back((int)it->read());
-            if (got != std::vector<int>(ref.begin(), ref.end())) vrt::fail("model-mismatch", "list contents differ from the reference list after an operation with a re-entrant element constructor under a recursive mutex");
+            if (got != std::vector<int>(ref.begin(), ref.end())) {
+                // C13's view of the same defect: an element that is no longer reachable from the list is never destroyed or freed
+                if (got.size() < ref.size()) vrt::fail("leak", "an element inserted by a re-entrant element constructor (recursive mutex) is no longer reachable from the list: it can never be destroyed or deallocated");
+                vrt::fail("model-mismatch", "list contents differ from the reference list after an operation with a re-entrant element constructor under a recursive mutex");
+            }
         }
+      }
+        // everything constructed was destroyed and every block returned exactly once, no later than list destruction
+        auto& L = vrt::ledger();
+        if (L.live_blocks() != 0) vrt::fail("leak", std::to_string(L.live_blocks()) + " allocator block(s) still allocated after the list was destroyed");
+        if (L.live_objects() != 0) vrt::fail("leak", "objects never destroyed after the list was destroyed");
     });
     if (nested_any) out.labels.push_back("nested-append-from-constructor");
     out.nontrivial = nested_any;
